@@ -84,31 +84,36 @@ fn check_level(chain: &[&CmdS], m: &ArgMatches, has_sub: bool, req: &str, rep: &
         for g in groups.iter().filter(|g| group_present(g)) { if my_conf.contains(&g.id) || g.conflicts.iter().any(|c| mine.contains(c)) { return true; } }
         false
     };
-    let mut need = |id: &str, why: String, rep: &mut Report| {
+    // `via`: the condition that makes `id` required rests on a global arg whose value was supplied at another level
+    let mut need = |id: &str, why: String, via: bool, rep: &mut Report| {
         if !present(id) && !exempt(id) {
-            let inv_global = find(id).map(|f| other_level(f)).unwrap_or(false);
+            let inv_global = via || find(id).map(|f| other_level(f)).unwrap_or(false);
             rep.oracle_fail(if inv_global { "required-missing:global-arg-from-another-level" } else { "required-missing" }, req, &format!("level {}: `{}` is required ({}) but not explicitly present", me.name, id, why));
         }
     };
-    for (a, _) in &args { if a.required { need(&a.id, "required(true)".into(), rep); } }
+    for (a, _) in &args { if a.required { need(&a.id, "required(true)".into(), false, rep); } }
     // a required group is also excused when a present arg conflicts with (or overrides) one of its members:
     // the override removes the member but the group's own matcher entry stays (observed, see DESIGN.md)
     for g in &groups { if g.required && !group_present(g) && !exempt(&g.id) && !g.args.iter().any(|a| exempt(a)) { rep.oracle_fail("required-group-missing", req, &format!("level {}: group `{}`", me.name, g.id)); } }
-    for (a, _) in &present_args {
+    for pa in &present_args {
+        let a = &pa.0;
         for (p, target) in &a.requires {
             let holds = match p { PredS::Present => true, PredS::Equals(v) => has_value(m, &a.id, v, a.ignore_case) };
-            if holds { need(target, format!("required by `{}`", a.id), rep); }
+            if holds { need(target, format!("required by `{}`", a.id), other_level(pa), rep); }
         }
     }
-    for g in groups.iter().filter(|g| group_present(g)) { for t in &g.requires { need(t, format!("required by group `{}`", g.id), rep); } }
+    for g in groups.iter().filter(|g| group_present(g)) {
+        let via = g.args.iter().any(|a| explicit(m, a) && find(a).map(|f| other_level(f)).unwrap_or(false));
+        for t in &g.requires { need(t, format!("required by group `{}`", g.id), via, rep); } }
     for (a, _) in &args {
         if explicit(m, &a.id) { continue; }
         let ic = |o: &str| find(o).map(|(x, _)| x.ignore_case).unwrap_or(false);
-        if a.r_ifs.iter().any(|(o, v)| has_value(m, o, v, ic(o))) { need(&a.id, "required_if_eq".into(), rep); }
-        if !a.r_ifs_all.is_empty() && a.r_ifs_all.iter().all(|(o, v)| has_value(m, o, v, ic(o))) { need(&a.id, "required_if_eq_all".into(), rep); }
+        let ol = |o: &str| find(o).map(|f| other_level(f)).unwrap_or(false);
+        if a.r_ifs.iter().any(|(o, v)| has_value(m, o, v, ic(o))) { need(&a.id, "required_if_eq".into(), a.r_ifs.iter().any(|(o, v)| has_value(m, o, v, ic(o)) && ol(o)), rep); }
+        if !a.r_ifs_all.is_empty() && a.r_ifs_all.iter().all(|(o, v)| has_value(m, o, v, ic(o))) { need(&a.id, "required_if_eq_all".into(), a.r_ifs_all.iter().any(|(o, _)| ol(o)), rep); }
         if !a.r_unless.is_empty() || !a.r_unless_all.is_empty() {
             let fails = (a.r_unless_all.is_empty() || !a.r_unless_all.iter().all(|o| present(o))) && !a.r_unless.iter().any(|o| present(o));
-            if fails { need(&a.id, "required_unless_present".into(), rep); }
+            if fails { need(&a.id, "required_unless_present".into(), false, rep); }
         }
     }
 }
